@@ -7,42 +7,64 @@ static size_t dict_cap(size_t n) {
     return 64 + 20 * n;
 }
 
-/* dict must hold exactly the sorted distinct values u[0..nu) */
+/* dict must hold exactly the sorted distinct values u[0..nu), as its public
+ * interface shows it: the documented `size` member (there is no accessor),
+ * varintDictLookup for every index and varintDictFind for every value, plus
+ * the out-of-range answers.  How the object stores this (capacity, index
+ * width, layout of `values`) is not looked at: a dictionary whose internals
+ * are inconsistent shows when it is used (dict_use: encode + decode round
+ * trip, rebuilds; ASan watches the accesses). */
 static int dict_matches(const varintDict *d, const uint64_t *u, size_t nu,
                         char *why, size_t whyn) {
     if (d->size != nu) {
         snprintf(why, whyn, "dict->size=%u, model %zu", d->size, nu);
         return 0;
     }
-    if (nu == 0) {
-        return 1;
-    }
-    if (!d->values || d->capacity < d->size) {
-        snprintf(why, whyn, "dict->capacity=%u < size=%u", d->capacity, d->size);
-        return 0;
-    }
     for (size_t i = 0; i < nu; i++) {
-        if (d->values[i] != u[i]) {
-            snprintf(why, whyn, "dict->values[%zu]=%llu, model %llu", i,
-                     (unsigned long long)d->values[i], (unsigned long long)u[i]);
+        uint64_t got = varintDictLookup(d, (uint32_t)i);
+        if (got != u[i]) {
+            snprintf(why, whyn, "varintDictLookup(%zu)=%llu, model %llu", i,
+                     (unsigned long long)got, (unsigned long long)u[i]);
+            return 0;
+        }
+        int32_t at = varintDictFind(d, u[i]);
+        if (at != (int32_t)i) {
+            snprintf(why, whyn, "varintDictFind(%llu)=%d, model %zu",
+                     (unsigned long long)u[i], (int)at, i);
             return 0;
         }
     }
-    if ((unsigned)d->indexWidth != bytes_for(nu - 1)) {
-        snprintf(why, whyn, "indexWidth=%u for %zu entries", (unsigned)d->indexWidth,
-                 nu);
+    if (varintDictLookup(d, (uint32_t)nu) != 0) {
+        snprintf(why, whyn, "varintDictLookup(size=%zu) is not 0", nu);
+        return 0;
+    }
+    /* a value that is not an entry (u is sorted and duplicate-free) */
+    uint64_t absent = 0;
+    int have = nu == 0 || u[0] > 0;
+    for (size_t i = 0; i < nu && !have; i++) {
+        if (i + 1 == nu ? u[i] != UINT64_MAX : u[i] + 1 != u[i + 1]) {
+            absent = u[i] + 1;
+            have = 1;
+        }
+    }
+    if (have && varintDictFind(d, absent) != -1) {
+        snprintf(why, whyn, "varintDictFind(%llu)=%d for a value that is not an "
+                            "entry", (unsigned long long)absent,
+                 (int)varintDictFind(d, absent));
         return 0;
     }
     return 1;
 }
 
-/* round trip of a dictionary-format buffer against src */
+/* round trip of what a dictionary encoder reported as its output against src:
+ * the length-taking decoder gets exactly the reported bytes in an exact-size
+ * block */
 static int dict_roundtrip(ctx *c, const uint8_t *out, size_t len, size_t cap,
                           const uint64_t *src, size_t n, const char *what) {
     if (len > cap) {
         return bad(c, "length", "%s returned %zu > buffer %zu", what, len, cap);
     }
-    uint8_t *cp = padded_copy(out, len, 64);
+    uint8_t *cp = exact_copy(out, len);
     size_t cnt = 0;
     uint64_t *dec = varintDictDecode(cp, len, &cnt);
     int r = 0;
@@ -58,7 +80,7 @@ static int dict_roundtrip(ctx *c, const uint8_t *out, size_t len, size_t cap,
                 (unsigned long long)dec[at], (unsigned long long)src[at]);
     }
     vf_lib_free(dec);
-    free(cp);
+    vf_exact_free(cp);
     return r;
 }
 
@@ -297,14 +319,28 @@ static void f_dict_stats(ctx *c) {
     } else if (rc != 0) {
         bad(c, "value", "varintDictGetStats returned %d", rc);
     } else if (s.uniqueCount != nu || s.totalCount != n ||
-               s.totalBytes != c->enclen ||
-               s.indexBytes != n * bytes_for(nu - 1) ||
-               s.originalBytes != n * 8) {
+               s.totalBytes != c->enclen || s.originalBytes != n * 8) {
+        /* facts about the data, and the size the encoder itself wrote */
         bad(c, "value",
-            "stats unique=%zu total=%zu totalBytes=%zu indexBytes=%zu; expected "
-            "%zu %zu %zu %zu",
-            s.uniqueCount, s.totalCount, s.totalBytes, s.indexBytes, nu, n,
-            c->enclen, n * bytes_for(nu - 1));
+            "stats unique=%zu total=%zu totalBytes=%zu originalBytes=%zu; "
+            "expected %zu %zu %zu %zu",
+            s.uniqueCount, s.totalCount, s.totalBytes, s.originalBytes, nu, n,
+            c->enclen, n * 8);
+    } else if (c->k == 0) {
+        c->ds0 = s;
+    } else if (s.dictBytes != c->ds0.dictBytes ||
+               s.indexBytes != c->ds0.indexBytes ||
+               memcmp(&s.compressionRatio, &c->ds0.compressionRatio,
+                      sizeof(float)) != 0 ||
+               memcmp(&s.spaceReduction, &c->ds0.spaceReduction,
+                      sizeof(float)) != 0) {
+        /* how the total splits into sections is the codec's layout: compared
+         * with the fault-free answer for the same input, not with a model */
+        bad(c, "value",
+            "stats dictBytes=%zu indexBytes=%zu ratio=%g; the fault-free call "
+            "gave %zu %zu %g",
+            s.dictBytes, s.indexBytes, (double)s.compressionRatio,
+            c->ds0.dictBytes, c->ds0.indexBytes, (double)c->ds0.compressionRatio);
     }
 }
 
